@@ -12,16 +12,20 @@ Single-key sign/verify (ed25519, secp256k1) is an abstract predicate per key: th
 statement is correspondence-only (harness `single`/`rawsig`/`rawkey` ops), not a theorem.
 
 What the code does beyond the statement, made explicit below:
+* the key must be a genuine k-of-n key: since /repo e5e21f6a46 `VerifyBytes` itself rejects
+  `K = 0` and `K > n` (a decoded key bypasses the constructor), so `1 ≤ K ≤ n` is part of the
+  acceptance condition and no guard on `K` is left in the theorems.  The only platform fact used
+  is that a Go slice length is an `int` (`n < 2^63`), which makes `int(pk.K) = K` after that check.
 * `len(Sigs) ≥ K` is implied by the other conditions (`verifyBytes_statement_partial` has no such
   hypothesis); `len(Sigs) ≤ n` is a genuine extra condition: unused trailing signatures are
   ignored while `len(Sigs) ≤ n` and make verification fail when `len(Sigs) > n`
   (`verifyBytes_extra_signatures_counterexample`).  Multisignatures built by
   `NewMultisig`/`AddSignature…` always have `len(Sigs) = #marked ≤ n` (`build_shape`), so for them
   the statement holds verbatim (`build_verify_iff`, `honest_signers_verify_iff`).
-* `int(pk.K)` is negative for `K ≥ 2^63`: such a (decodable) key accepts with fewer than `K` marks
-  (`verifyBytes_exact_counterexample`) — a finding of the unchanged tree.
-* a nil element of `PubKeys` (decodable) at a marked position panics
-  (`verifyBytes_never_panics_counterexample`) — a finding of the unchanged tree.
+* a nil element of `PubKeys` (decodable) at a marked position is now rejected, not dereferenced:
+  `verifyBytes_never_panics` holds for ALL inputs.
+Regressions of the two defects fixed by e5e21f6a46 (K ≥ 2^63 / K = 0 accepted, nil key panic) are
+pinned as `example`s below and in corpus/C44.
 -/
 namespace GnoVerif.C44
 
@@ -59,142 +63,145 @@ example : WellFormed (some ⟨3, [0xa0]⟩) 3 := ⟨by decide, by decide, by dec
     `ExtraBitsStored = 200` with one element has `Size() = 200`. -/
 example : (CBA.mk 3 []).size = -5 ∧ (CBA.mk 200 [0x80]).size = 200 ∧ (CBA.mk 9 []).size = 1 := by decide
 
-/-! ## B. VerifyBytes never panics on the signature bytes -/
+/-! ## B. VerifyBytes never panics -/
 
-/-- For ALL inputs — undecodable bytes, every bit-array shape, any signature list, any threshold —
-    `VerifyBytes` never raises an index-out-of-range panic (the `none` branch of every checked
-    index of the model is unreachable). -/
-theorem verifyBytes_never_index_panics {σ : Type} (k : UInt64) (keys : List (Key σ)) (dec : Option (MSig σ)) :
-    verifyBytesE k keys dec ≠ .error .index ∧ verifyBytesE k keys dec ≠ .error .decode := by
-  rcases verifyBytesE_cases k keys dec with ⟨b, h⟩ | ⟨h, _⟩ <;> simp [h]
-
-/-- With no nil constituent key, `VerifyBytes` returns a boolean on every input:
-    "verification of arbitrary signature bytes returns false instead of panicking". -/
-theorem verifyBytes_total {σ : Type} (k : UInt64) (keys : List (Key σ)) (dec : Option (MSig σ))
-    (hkeys : ∀ key ∈ keys, key ≠ none) : ∃ b, verifyBytesE k keys dec = .ok b := by
-  rcases verifyBytesE_cases k keys dec with h | ⟨_, m, p, _, hp, hk, _⟩
-  · exact h
-  · have := List.mem_of_getElem? hk
-    exact absurd rfl (hkeys none this)
-
-example : (∀ key ∈ ([some fun _ => true, some fun _ => false] : List (Key Unit)), key ≠ none) := by
-  intro key hk; simp at hk; rcases hk with h | h <;> simp [h]
-
-/-- The only possible panic is the nil-key one, and only with a nil key at a marked position. -/
-theorem verifyBytes_panic_only_nilkey {σ : Type} (k : UInt64) (keys : List (Key σ)) (dec : Option (MSig σ))
-    (e : Panic) (h : verifyBytesE k keys dec = .error e) :
-    e = .nilKey ∧ ∃ m p, dec = some m ∧ p < keys.length ∧ keys[p]? = some none ∧ m.ba.getIndex (p : Int) = true := by
-  rcases verifyBytesE_cases k keys dec with ⟨b, hb⟩ | ⟨h', w⟩
-  · rw [hb] at h; cases h
-  · rw [h'] at h; cases h; exact ⟨rfl, w⟩
-
-example : ∃ (k : UInt64) (keys : List (Key Unit)) (dec : Option (MSig Unit)) (e : Panic),
-    verifyBytesE k keys dec = .error e :=
-  ⟨1, [none, some fun _ => true], some ⟨some ⟨2, [0x80]⟩, [()]⟩, .nilKey, by decide⟩
+/-- For ALL inputs — undecodable bytes, every bit-array shape, any signature list, any threshold,
+    nil constituent keys — `VerifyBytes` returns a boolean: no checked index of the model takes its
+    panic branch and a nil key is never dereferenced.
+    "Verification of arbitrary signature bytes returns false instead of panicking." -/
+theorem verifyBytes_never_panics {σ : Type} (k : UInt64) (keys : List (Key σ)) (dec : Option (MSig σ)) :
+    ∃ b, verifyBytesE k keys dec = .ok b :=
+  verifyBytesE_ok k keys dec
 
 /-- Undecodable signature bytes are rejected. -/
 theorem verifyBytes_rejects_undecodable {σ : Type} (k : UInt64) (keys : List (Key σ)) :
     verifyBytesE k keys (none : Option (MSig σ)) = .ok false := rfl
 
-/-- The full "never panics" clause, over every key the code can be handed. -/
-def verifyBytes_never_panics_statement : Prop :=
-  ∀ (k : UInt64) (keys : List (Key Unit)) (dec : Option (MSig Unit)), ∃ b, verifyBytesE k keys dec = .ok b
+/-- A key that is not a genuine k-of-n key (`K = 0` or `K > n`; decodable, the constructor is
+    bypassed) verifies nothing. -/
+theorem verifyBytes_rejects_bad_threshold {σ : Type} (k : UInt64) (keys : List (Key σ)) (dec : Option (MSig σ))
+    (h : k.toNat = 0 ∨ keys.length < k.toNat) : verifyBytesE k keys dec = .ok false := by
+  cases dec with
+  | none => rfl
+  | some m =>
+    have h' : k.toNat = 0 ∨ k.toNat > keys.length := h
+    simp [verifyBytesE, h']
 
-/-- FINDING (unchanged tree): `PubKeys = [nil, key]` (amino decodes an empty `Any` to nil), K = 1,
-    position 0 marked, one signature ⇒ nil-pointer panic.  `verifyBytes_total` is the partial
-    statement under the exact guard (no nil constituent key). -/
-theorem verifyBytes_never_panics_counterexample : ¬ verifyBytes_never_panics_statement := by
-  intro h
-  obtain ⟨b, hb⟩ := h 1 [none, some (fun _ => true)] (some ⟨some ⟨2, [0x80]⟩, [()]⟩)
-  revert hb
-  cases b <;> decide
+example : ∃ (k : UInt64) (keys : List (Key Unit)), k.toNat = 0 ∨ keys.length < k.toNat :=
+  ⟨0xFFFFFFFFFFFFFFFF, [some fun _ => true], by decide⟩
+
+/-- A nil constituent key at a marked position makes verification fail (it used to panic). -/
+theorem verifyBytes_rejects_nil_key {σ : Type} (k : UInt64) (keys : List (Key σ)) (m : MSig σ) (p : Nat)
+    (hp : p < keys.length) (hnil : keys[p]? = some none) (hm : m.ba.getIndex (p : Int) = true) :
+    verifyBytesE k keys (some m) = .ok false := by
+  obtain ⟨b, hb⟩ := verifyBytesE_ok k keys (some m)
+  cases b with
+  | false => exact hb
+  | true =>
+    obtain ⟨m', hm', _, _, _, _, _, _, hall⟩ := (verifyBytesE_true_iff k keys (some m)).mp hb
+    cases hm'
+    have hmem : p ∈ marked m.ba keys.length := by
+      simp [marked, List.mem_filter, List.mem_range, hp, hm]
+    obtain ⟨j, hj, hjp⟩ := List.mem_iff_getElem.mp hmem
+    obtain ⟨s, _, hacc⟩ := hall j hj
+    rw [hjp] at hacc
+    simp [keyAccepts, hnil] at hacc
+
+/-- regressions of the defects fixed by /repo e5e21f6a46: nil key at a marked position;
+    K = 2^64−1 and K = 2^63 with nothing signed; K = 0 with an empty multisignature (verified for
+    EVERY message). -/
+example : verifyBytesE (σ := Unit) 1 [none, some fun _ => true] (some ⟨some ⟨2, [0x80]⟩, [()]⟩) = .ok false := by decide
+example : verifyBytesE (σ := Unit) 0xFFFFFFFFFFFFFFFF [some fun _ => true] (some ⟨newCompactBitArray 1, []⟩) = .ok false := by decide
+example : verifyBytesE (σ := Unit) 0x8000000000000000 [some fun _ => true] (some ⟨newCompactBitArray 1, []⟩) = .ok false := by decide
+example : verifyBytesE (σ := Unit) 0 [some fun _ => true, some fun _ => true] (some ⟨newCompactBitArray 2, []⟩) = .ok false := by decide
+example : verifyBytesE (σ := Unit) 0 [] (some ⟨none, []⟩) = .ok false := by decide
 
 /-! ## C. VerifyBytes accepts exactly … -/
 
-/-- Exact characterisation for ALL inputs (any shape, any K): accepted iff the bytes decode, the
-    bit array claims exactly `n` positions, `int(K) ≤ len(Sigs) ≤ n`, at least `int(K)` positions
-    are marked, and the j-th signature verifies under the key of the j-th marked position. -/
+/-- Exact characterisation for ALL inputs (any shape, any K, nil keys): accepted iff the bytes
+    decode, `1 ≤ K ≤ n`, the bit array claims exactly `n` positions, `int(K) ≤ len(Sigs) ≤ n`, at
+    least `int(K)` positions are marked, and the j-th signature verifies under the (non-nil) key of
+    the j-th marked position. -/
 theorem verifyBytes_exact {σ : Type} (k : UInt64) (keys : List (Key σ)) (dec : Option (MSig σ)) :
     verifyBytesE k keys dec = .ok true ↔ Accept k keys dec :=
   verifyBytesE_true_iff k keys dec
 
-/-- Soundness for every input with a sane threshold: whatever the shape, acceptance implies at
-    least K marked positions, each carrying (in order) a valid signature of its key. -/
+/-- Soundness for every input, whatever the shape and the threshold: acceptance implies a genuine
+    k-of-n key, at least K marked positions, each carrying (in order) a valid signature of its key.
+    (`n < 2^63`: a Go slice length is an `int`.) -/
 theorem verifyBytes_sound {σ : Type} (k : UInt64) (keys : List (Key σ)) (m : MSig σ)
-    (hk : k.toNat < 2 ^ 63) (h : verifyBytesE k keys (some m) = .ok true) :
-    k.toNat ≤ (marked m.ba keys.length).length ∧ AllMarkedValid keys m keys.length := by
-  obtain ⟨m', hm, _, _, _, h4, h5⟩ := (verifyBytesE_true_iff k keys (some m)).mp h
+    (hn : keys.length < 2 ^ 63) (h : verifyBytesE k keys (some m) = .ok true) :
+    1 ≤ k.toNat ∧ k.toNat ≤ (marked m.ba keys.length).length ∧ AllMarkedValid keys m keys.length := by
+  obtain ⟨m', hm, h0, h1, _, _, _, h4, h5⟩ := (verifyBytesE_true_iff k keys (some m)).mp h
   cases hm
-  rw [kInt_small hk] at h4
-  exact ⟨by omega, h5⟩
+  rw [kInt_of_le hn h1] at h4
+  exact ⟨h0, by omega, h5⟩
 
-/-- The property as stated, for well-formed multisignatures over non-nil keys and nothing else
+/-- The property as stated, for a genuine k-of-n key and well-formed multisignatures, nothing else
     assumed. -/
 def verifyBytes_exact_statement : Prop :=
-  ∀ (k : UInt64) (keys : List (Key Unit)) (m : MSig Unit),
-    (∀ key ∈ keys, key ≠ none) → WellFormed m.ba keys.length →
+  ∀ (k : UInt64) (keys : List (Key Nat)) (m : MSig Nat),
+    1 ≤ k.toNat → k.toNat ≤ keys.length → keys.length < 2 ^ 63 → WellFormed m.ba keys.length →
     (verifyBytesE k keys (some m) = .ok true ↔
       (k.toNat ≤ (marked m.ba keys.length).length ∧ AllMarkedValid keys m keys.length))
 
-/-- The statement under the exact guards the code needs: `K < 2^63` and `len(Sigs) ≤ n`.
-    Nothing about `len(Sigs) ≥ K` is assumed — it follows from the right-hand side.  Holds for
-    every shape whose `Size()` is `n` (in particular every well-formed one, `WellFormed.size`). -/
+/-- The statement under the exact guard the code needs: `len(Sigs) ≤ n`; `1 ≤ K` moves into the
+    right-hand side because the code now enforces `1 ≤ K ≤ n` itself (`K ≤ n` follows from
+    `K ≤ #marked`).  Nothing about `len(Sigs) ≥ K` is assumed — it follows from the right-hand
+    side.  Holds for every shape whose `Size()` is `n` (in particular every well-formed one). -/
 theorem verifyBytes_statement_partial {σ : Type} (k : UInt64) (keys : List (Key σ)) (m : MSig σ)
-    (hk : k.toNat < 2 ^ 63) (hsize : m.ba.size = (keys.length : Int)) (hlen : m.sigs.length ≤ keys.length) :
+    (hn : keys.length < 2 ^ 63) (hsize : m.ba.size = (keys.length : Int)) (hlen : m.sigs.length ≤ keys.length) :
     verifyBytesE k keys (some m) = .ok true ↔
-      (k.toNat ≤ (marked m.ba keys.length).length ∧ AllMarkedValid keys m keys.length) := by
+      (1 ≤ k.toNat ∧ k.toNat ≤ (marked m.ba keys.length).length ∧ AllMarkedValid keys m keys.length) := by
   constructor
-  · exact verifyBytes_sound k keys m hk
-  · rintro ⟨h1, h2⟩
+  · exact verifyBytes_sound k keys m hn
+  · rintro ⟨h0, h1, h2⟩
     apply (verifyBytesE_true_iff k keys (some m)).mpr
     have := allMarkedValid_length h2
-    exact ⟨m, rfl, hsize, by rw [kInt_small hk]; omega, hlen, by rw [kInt_small hk]; omega, h2⟩
+    have hmn := marked_length_le m.ba keys.length
+    have hkn : k.toNat ≤ keys.length := by omega
+    exact ⟨m, rfl, h0, hkn, hsize, by rw [kInt_of_le hn hkn]; omega, hlen,
+      by rw [kInt_of_le hn hkn]; omega, h2⟩
 
 example : ∃ (k : UInt64) (keys : List (Key Unit)) (m : MSig Unit),
-    k.toNat < 2 ^ 63 ∧ m.ba.size = (keys.length : Int) ∧ m.sigs.length ≤ keys.length ∧
+    keys.length < 2 ^ 63 ∧ m.ba.size = (keys.length : Int) ∧ m.sigs.length ≤ keys.length ∧
     verifyBytesE k keys (some m) = .ok true :=
   ⟨2, [some fun _ => true, some fun _ => false, some fun _ => true], ⟨some ⟨3, [0xa0]⟩, [(), ()]⟩, by decide⟩
 
 /-- When every supplied signature is used (`len(Sigs) = #marked`, the shape of every honestly
-    built multisignature) no side condition on the list is left: the statement verbatim. -/
+    built multisignature) no side condition on the list is left: the statement verbatim (for a
+    key with `K ≥ 1`). -/
 theorem verifyBytes_statement_all_sigs_used {σ : Type} (k : UInt64) (keys : List (Key σ)) (m : MSig σ)
-    (hk : k.toNat < 2 ^ 63) (hsize : m.ba.size = (keys.length : Int))
+    (hn : keys.length < 2 ^ 63) (hsize : m.ba.size = (keys.length : Int))
     (hused : m.sigs.length = (marked m.ba keys.length).length) :
     verifyBytesE k keys (some m) = .ok true ↔
-      (k.toNat ≤ (marked m.ba keys.length).length ∧ AllMarkedValid keys m keys.length) :=
-  verifyBytes_statement_partial k keys m hk hsize (by have := marked_length_le m.ba keys.length; omega)
+      (1 ≤ k.toNat ∧ k.toNat ≤ (marked m.ba keys.length).length ∧ AllMarkedValid keys m keys.length) :=
+  verifyBytes_statement_partial k keys m hn hsize (by have := marked_length_le m.ba keys.length; omega)
 
 /-- More marked positions than signatures (the input of the panic fixed in 8113a62ecf) is
     rejected, for every shape and threshold. -/
 theorem verifyBytes_marked_exceeds_sigs {σ : Type} (k : UInt64) (keys : List (Key σ)) (m : MSig σ)
     (h : m.sigs.length < (marked m.ba keys.length).length) :
-    verifyBytesE k keys (some m) ≠ .ok true := by
-  intro hacc
-  obtain ⟨m', hm, _, _, _, _, h5⟩ := (verifyBytesE_true_iff k keys (some m)).mp hacc
-  cases hm
-  have := allMarkedValid_length h5
-  omega
+    verifyBytesE k keys (some m) = .ok false := by
+  obtain ⟨b, hb⟩ := verifyBytesE_ok k keys (some m)
+  cases b with
+  | false => exact hb
+  | true =>
+    obtain ⟨m', hm, _, _, _, _, _, _, h5⟩ := (verifyBytesE_true_iff k keys (some m)).mp hb
+    cases hm
+    have := allMarkedValid_length h5
+    omega
 
 example : ∃ (keys : List (Key Unit)) (m : MSig Unit), m.sigs.length < (marked m.ba keys.length).length :=
   ⟨[some fun _ => true, some fun _ => true, some fun _ => true], ⟨some ⟨3, [0xe0]⟩, [(), ()]⟩, by decide⟩
 
-/-- the pinned witnesses of the two fixed panics: K = 2, three marked bits, two valid signatures;
-    and the smallest malformed shape (`ExtraBitsStored = 9`, no `Elems`, one key). -/
+/-- the pinned witnesses of the two panics fixed earlier: K = 2, three marked bits, two valid
+    signatures; and the smallest malformed shape (`ExtraBitsStored = 9`, no `Elems`, one key). -/
 example : verifyBytesE (σ := Unit) 2 [some fun _ => true, some fun _ => true, some fun _ => true]
     (some ⟨some ⟨3, [0xe0]⟩, [(), ()]⟩) = .ok false := by decide
 example : verifyBytesE (σ := Unit) 1 [some fun _ => true] (some ⟨some ⟨9, []⟩, [()]⟩) = .ok false := by decide
 example : verifyBytesE (σ := Unit) 1 (List.replicate 9 (some fun _ => true)) (some ⟨some ⟨9, [0x80]⟩, [()]⟩)
     = .ok true := by decide
-
-/-- FINDING (unchanged tree): the statement fails for `K ≥ 2^63`: K = 2^64−1 over one key, no
-    position marked, no signature ⇒ accepted. -/
-theorem verifyBytes_exact_counterexample : ¬ verifyBytes_exact_statement := by
-  intro h
-  have := (h 0xFFFFFFFFFFFFFFFF [some fun _ => true] ⟨newCompactBitArray 1, []⟩
-    (by intro key hk; simp at hk; simp [hk]) (represents_new (σ := Unit) 1).1).mp (by decide)
-  have h1 := this.1
-  revert h1
-  decide
 
 /-- Not a defect of honest use, but a reading of the statement the code does not implement:
     1-of-2, position 0 marked with a valid signature, two unused trailing signatures
@@ -214,6 +221,16 @@ theorem verifyBytes_extra_signatures_counterexample :
   have : j = 0 := by omega
   subst this
   exact ⟨0, rfl, by simp [hm, keyAccepts]⟩
+
+/-- hence the unguarded statement is false exactly because of `len(Sigs) > n`
+    (`verifyBytes_statement_partial` is the statement under that one guard). -/
+theorem verifyBytes_exact_counterexample : ¬ verifyBytes_exact_statement := by
+  intro h
+  obtain ⟨⟨h1, h2⟩, hrej, _⟩ := verifyBytes_extra_signatures_counterexample
+  have := (h 1 [some fun s => s == 0, some fun _ => false] ⟨some ⟨2, [0x80]⟩, [0, 7, 7]⟩
+    (by decide) (by decide) (by decide) ⟨by decide, by decide, by decide⟩).mpr ⟨h1, h2⟩
+  rw [hrej] at this
+  cases this
 
 /-! ## D. multisignatures built by NewMultisig / AddSignature -/
 
@@ -298,26 +315,27 @@ theorem build_shape {σ : Type} (n : Nat) (adds : List (Nat × σ)) (hin : ∀ a
   have hl := sigs_length_of_represents h2
   exact ⟨m, h1, h2.1, h2.1.size, hl, by omega⟩
 
-/-- … and it verifies iff at least K positions got a signature and, for every position, the
+/-- … and it verifies iff `K ≥ 1`, at least K positions got a signature and, for every position, the
     LATEST signature added for it verifies under that position's key. -/
 theorem build_verify_iff {σ : Type} (k : UInt64) (keys : List (Key σ)) (adds : List (Nat × σ))
-    (hk : k.toNat < 2 ^ 63) (hin : ∀ a ∈ adds, a.1 < keys.length) :
+    (hn : keys.length < 2 ^ 63) (hin : ∀ a ∈ adds, a.1 < keys.length) :
     ∃ m, addAllE (newMultisig (keys.length : Int)) adds = .ok m ∧
       (verifyBytesE k keys (some m) = .ok true ↔
-        (k.toNat ≤ ((List.range keys.length).filter fun p => (assignAll (fun _ => none) adds p).isSome).length ∧
+        (1 ≤ k.toNat ∧ k.toNat ≤ ((List.range keys.length).filter fun p => (assignAll (fun _ => none) adds p).isSome).length ∧
           ∀ p, p < keys.length → ∀ s, assignAll (fun _ => none) adds p = some s → keyAccepts keys p s = true)) := by
   obtain ⟨m, h1, h2⟩ := addAllE_spec adds (represents_new keys.length) hin
-  exact ⟨m, h1, verifyBytesE_of_represents k keys rfl h2 hk⟩
+  exact ⟨m, h1, verifyBytesE_of_represents k keys rfl h2 hn⟩
 
 /-- The honest case: signers `S` (any order, repetitions allowed), each contributing a signature
-    valid under its own key ⇒ the multisignature verifies iff at least K DISTINCT signers signed. -/
+    valid under its own key ⇒ the multisignature verifies iff `K ≥ 1` and at least K DISTINCT
+    signers signed. -/
 theorem honest_signers_verify_iff {σ : Type} (k : UInt64) (keys : List (Key σ)) (S : List Nat) (sigOf : Nat → σ)
-    (hk : k.toNat < 2 ^ 63) (hin : ∀ i ∈ S, i < keys.length)
+    (hn : keys.length < 2 ^ 63) (hin : ∀ i ∈ S, i < keys.length)
     (hvalid : ∀ i ∈ S, keyAccepts keys i (sigOf i) = true) :
     ∃ m, addAllE (newMultisig (keys.length : Int)) (S.map fun i => (i, sigOf i)) = .ok m ∧
       (verifyBytesE k keys (some m) = .ok true ↔
-        k.toNat ≤ ((List.range keys.length).filter fun p => decide (p ∈ S)).length) := by
-  obtain ⟨m, h1, h2⟩ := build_verify_iff k keys (S.map fun i => (i, sigOf i)) hk
+        (1 ≤ k.toNat ∧ k.toNat ≤ ((List.range keys.length).filter fun p => decide (p ∈ S)).length)) := by
+  obtain ⟨m, h1, h2⟩ := build_verify_iff k keys (S.map fun i => (i, sigOf i)) hn
     (by intro a ha; obtain ⟨i, hi, rfl⟩ := List.mem_map.mp ha; exact hin i hi)
   refine ⟨m, h1, ?_⟩
   rw [h2]
@@ -331,9 +349,9 @@ theorem honest_signers_verify_iff {σ : Type} (k : UInt64) (keys : List (Key σ)
     by_cases hp : p ∈ S <;> simp [hp]
   rw [hfilter]
   constructor
-  · exact fun h => h.1
+  · exact fun h => ⟨h.1, h.2.1⟩
   · intro h
-    refine ⟨h, ?_⟩
+    refine ⟨h.1, h.2, ?_⟩
     intro p _ s hs
     rw [hf p] at hs
     by_cases hp : p ∈ S
@@ -341,13 +359,13 @@ theorem honest_signers_verify_iff {σ : Type} (k : UInt64) (keys : List (Key σ)
       subst hs; exact hvalid p hp
     · simp [hp] at hs
 
-/-- With pairwise distinct signers the count is `|S|`: verifies ⇔ `|S| ≥ k`. -/
+/-- With pairwise distinct signers the count is `|S|`: verifies ⇔ `|S| ≥ k` (and `k ≥ 1`). -/
 theorem honest_subset_verify_iff {σ : Type} (k : UInt64) (keys : List (Key σ)) (S : List Nat) (sigOf : Nat → σ)
-    (hk : k.toNat < 2 ^ 63) (hnodup : S.Nodup) (hin : ∀ i ∈ S, i < keys.length)
+    (hn : keys.length < 2 ^ 63) (hnodup : S.Nodup) (hin : ∀ i ∈ S, i < keys.length)
     (hvalid : ∀ i ∈ S, keyAccepts keys i (sigOf i) = true) :
     ∃ m, addAllE (newMultisig (keys.length : Int)) (S.map fun i => (i, sigOf i)) = .ok m ∧
-      (verifyBytesE k keys (some m) = .ok true ↔ k.toNat ≤ S.length) := by
-  obtain ⟨m, h1, h2⟩ := honest_signers_verify_iff k keys S sigOf hk hin hvalid
+      (verifyBytesE k keys (some m) = .ok true ↔ (1 ≤ k.toNat ∧ k.toNat ≤ S.length)) := by
+  obtain ⟨m, h1, h2⟩ := honest_signers_verify_iff k keys S sigOf hn hin hvalid
   exact ⟨m, h1, by rw [h2, distinct_count_nodup hnodup hin]⟩
 
 example : ∃ (keys : List (Key Nat)) (S : List Nat) (sigOf : Nat → Nat),
@@ -362,7 +380,7 @@ example : ∃ (keys : List (Key Nat)) (S : List Nat) (sigOf : Nat → Nat),
 theorem gas_no_panic_when_accepted {σ : Type} (k : UInt64) (keys : List (Key σ)) (m : MSig σ)
     (costs : List (Option Nat)) (hc : costs.length = keys.length)
     (h : verifyBytesE k keys (some m) = .ok true) : ∃ g, multisigGasE costs (some m) = .ok g := by
-  obtain ⟨m', hm, h1, _, _, _, h5⟩ := (verifyBytesE_true_iff k keys (some m)).mp h
+  obtain ⟨m', hm, _, _, h1, _, _, _, h5⟩ := (verifyBytesE_true_iff k keys (some m)).mp h
   cases hm
   apply multisigGasE_ok
   · omega
